@@ -166,22 +166,31 @@ func (l *loginInboundConn) loginEventFired(onAllMessagesHandled func() error) er
 	for l.loginMessagesToSend.Len() != 0 {
 		msgs = append(msgs, l.loginMessagesToSend.PopFront())
 	}
-	if len(msgs) != 0 {
+	// Nothing is outstanding if no message was queued or if every queued
+	// message has already been answered (a client can answer an id it was not
+	// sent yet). No response will trigger the callback then, so it runs here.
+	done := len(l.outstandingResponses) == 0
+	if !done {
 		// Keep the callback only if it has to run later, when the last
 		// response arrives; it must not run a second time.
 		l.onAllMessagesHandled = onAllMessagesHandled
 	}
 	l.mu.Unlock()
 
-	if len(msgs) == 0 {
-		return onAllMessagesHandled()
-	}
-	for _, msg := range msgs {
-		if err := l.delegate.BufferPacket(msg); err != nil {
+	if len(msgs) != 0 {
+		for _, msg := range msgs {
+			if err := l.delegate.BufferPacket(msg); err != nil {
+				return err
+			}
+		}
+		if err := l.delegate.Flush(); err != nil {
 			return err
 		}
 	}
-	return l.delegate.Flush()
+	if done {
+		return onAllMessagesHandled()
+	}
+	return nil
 }
 
 // clearOnAllMessagesHandled removes the onAllMessagesHandled callback.
